@@ -16,6 +16,8 @@ CONSTANTS
   MaxHist = 1
   MaxDirect = 1
   MaxUnwanted = 1
+  IdwAhead = 1
+  IdwPerHb = 2
   ExcludeSource = FALSE
   EarlyReturn = FALSE
   FanoutUnfiltered = FALSE
